@@ -230,7 +230,7 @@ func (p *Program) newExec(ob *Obligation, prefix []int) *Exec {
 		freshSeq: map[string]int{}, groupIv: map[string]*smt.Term{}, modKinds: map[int]*ModInfo{},
 		atoms: map[string]bool{}, assertsSeen: map[string]int{}, reached: map[string]bool{},
 		funcs: map[string]bool{}, stubs: map[string]bool{}, native: map[string]interface{}{},
-		blobs: map[*ArrObj]BigVal{}, digests: map[*ArrObj]*smt.Term{}, signedMsgs: map[*ArrObj]*SignedMsg{}, derBlobs: map[*ArrObj][]derElem{}, digestVals: map[*Array]*smt.Term{}, initDone: map[*ssa.Package]bool{},
+		blobs: map[*ArrObj]BigVal{}, digests: map[*ArrObj]*smt.Term{}, signedMsgs: map[*ArrObj]*SignedMsg{}, derBlobs: map[*ArrObj][]derElem{}, fs: map[string]*fsFile{}, fileContent: map[string]string{}, digestVals: map[*Array]*smt.Term{}, initDone: map[*ssa.Package]bool{},
 		birth: map[string]int{}, maxBirthMemo: map[int]int{}, oracleSeen: map[int]bool{}}
 }
 
